@@ -111,6 +111,11 @@ package ompt
 //@   requires l != nil
 //@   modifies l.state
 
+// deserialize builds a node from bytes (trusted here; the callers are checked for what they hand over)
+//@ func deserialize(h, serialized, state) (n, err)
+//@   trusted
+//@   modifies *
+
 // compareKeys: length of the common prefix, and whether the two nibble strings are equal
 //@ func compareKeys(k1, k2) (cnt, match)
 //@   arith int
